@@ -539,7 +539,7 @@ impl Check for C10 {
     }
     fn default_runs(&self, tier: Tier) -> u64 {
         match tier {
-            Tier::Quick => 6000,
+            Tier::Quick => 8000,
             Tier::Thorough => 400000,
         }
     }
